@@ -895,6 +895,8 @@ def _cls(s):
             out.append("C")
         elif ch.isspace():
             out.append("?")          # other Unicode whitespace: outside the class abstraction
+        elif ch in "\u0433\u0413":
+            out.append("G")          # the Russian year mark of RE_SANITIZE_RUSSIAN (spec/Sanitize.tla: RussianStep)
         elif ch in "uU":
             out.append("U")          # the Croatian "at" of RE_SANITIZE_CROATIAN (spec/Sanitize.tla: CroatStep)
         elif ch.isalpha():
@@ -927,7 +929,7 @@ def call_c18(case):
     def plain(s):
         low = s.lower()
         # (the Croatian-date rule of sanitize_date IS part of the class model: class "U", CroatStep)
-        return not any(x in low for x in ("г", "on:", "»", "‎", "‏", "\xb7", "َ", "ُ", ",")) and "?" not in _cls(s) \
+        return not any(x in low for x in ("on:", "»", "‎", "‏", "\xb7", "َ", "ُ", ",")) and "?" not in _cls(s) \
             and not any(ch in s for ch in "’ʼʻ՚ꞌ′‵ʹ＇")
 
     base, exc0 = run(case["s"])
